@@ -192,7 +192,7 @@ pub fn run(args: &Args) {
         }
     }
 
-    let n = args.tier.pick(4000, 200_000);
+    let n = args.tier.pick(24_000, 400_000);
     let res = vcore::run_prop_parallel(&report, "programs", n, vcore::num_workers(), cases::case_strategy, |spec| {
         let (case, files, lits) = materialise(spec, &ex);
         let r = check_files(&files, &lits, &report);
